@@ -44,6 +44,71 @@ func runC07(c *Ctx) {
 	handoverRule(c, "C07.handover", "dnsdata", "dnsdata/rdb", "dnsdata/cdb")
 	// a batch-mode compile applies additions through integrate: a step that depends on what an earlier batch stored makes the result depend on batch boundaries
 	c15Unconditional(c, "C07")
+	c07LoopVar(c)
+}
+
+// c07LoopVar implements C07.loopvar. The module is built with `go 1.18` semantics: the iteration variable of a for /
+// range statement is ONE variable. A function literal that is started as a goroutine (go statement, errgroup.Go)
+// inside the loop and refers to that variable sees whatever iteration the loop has reached when it runs — round-5
+// seed c07j moved `b.values[bucket.start:bucket.end]` into the SST worker, and every worker wrote the last bucket.
+func c07LoopVar(c *Ctx) {
+	rule := "C07.loopvar"
+	c.Rule(rule, "A5/A2 in the compile packages (dnsdata, dnsdata/rdb, dnsdata/cdb): no function literal started as a goroutine (go statement or (*errgroup.Group).Go) inside a loop captures by reference a variable that is allocated outside the loop and stored to inside it (the per-loop iteration variable under the module's go 1.18 semantics)")
+	n := 0
+	for _, fn := range c.OurFuncs("dnsdata", "dnsdata/rdb", "dnsdata/cdb") {
+		loops := naturalLoops(fn)
+		if len(loops) == 0 {
+			continue
+		}
+		for _, b := range fn.Blocks {
+			for _, in := range b.Instrs {
+				mc, ok := in.(*ssa.MakeClosure)
+				if !ok || mc.Referrers() == nil {
+					continue
+				}
+				// started asynchronously?
+				async := false
+				for _, r := range *mc.Referrers() {
+					switch x := r.(type) {
+					case *ssa.Go:
+						async = true
+					case *ssa.Call:
+						if f := calleeOf(x.Common()); f != nil && f.Name() == "Go" && f.Pkg() != nil && strings.HasSuffix(f.Pkg().Path(), "errgroup") {
+							async = true
+						}
+					}
+				}
+				if !async {
+					continue
+				}
+				for h, body := range loops {
+					if !body[b] {
+						continue
+					}
+					n++
+					c.Examined(fn)
+					var bad []string
+					for _, bind := range mc.Bindings {
+						al, isAl := bind.(*ssa.Alloc)
+						if !isAl || body[al.Block()] || al.Referrers() == nil {
+							continue // a fresh variable per iteration, or a value
+						}
+						for _, r := range *al.Referrers() {
+							if st, isSt := r.(*ssa.Store); isSt && st.Addr == al && body[st.Block()] {
+								bad = append(bad, al.Comment)
+								break
+							}
+						}
+					}
+					sort.Strings(bad)
+					_ = h
+					c.Check(rule, fmt.Sprintf("%s|goroutine %s", fnName(fn), mc.Fn.Name()), len(bad) == 0, mc.Fn.Pos(),
+						fmt.Sprintf("a goroutine started in a loop must not share the loop's variables; shared and updated by the loop: %v", bad))
+				}
+			}
+		}
+	}
+	c.Floor(rule, 2)
 }
 
 // c07Semaphore: a limiter channel whose capacity is an option value is only made when that value is positive.
@@ -120,6 +185,75 @@ func runC08(c *Ctx) {
 	c15SortedFlag(c, "C08")
 	c15DelOne(c, "C08.del-one")
 	c15FailOnlyOnDel(c, "C08.fail-only-on-del")
+	c08DiffRecord(c)
+	c08FreshBatch(c)
+}
+
+// c08DiffRecord implements C08.diff-record: the record of a diff line is the line without its operation byte, byte for
+// byte. The compiler keys and stores what the data parser hands it (leading blanks removed, nothing else); a diff
+// entry that is trimmed or folded differently (round-5 seed c08j: TrimSpace) adds a value the fresh compile does not
+// have, and fails to delete one it has.
+func c08DiffRecord(c *Ctx) {
+	rule := "C08.diff-record"
+	c.Rule(rule, "A8 in package dbdiff: every value stored into Entry.Bytes derives from the parsed line by slicing and conversion only — no bytes/strings function that rewrites or re-cuts by content (Trim*, To*, Replace*, Fields*, Map, Title) is on its data path")
+	fBytes := c.Field("dnsdata/rdb/dbdiff", "Entry", "Bytes")
+	n := 0
+	for _, fn := range c.OurFuncs("dnsdata/rdb/dbdiff") {
+		for _, st := range storesToField(fn, fBytes) {
+			n++
+			c.Examined(fn)
+			var bad []string
+			for v := range backSlice(st.Val, nil) {
+				call, ok := v.(*ssa.Call)
+				if !ok {
+					continue
+				}
+				f := calleeOf(call.Common())
+				if f == nil || f.Pkg() == nil || (f.Pkg().Path() != "bytes" && f.Pkg().Path() != "strings") {
+					continue
+				}
+				nm := f.Name()
+				if strings.HasPrefix(nm, "Trim") || strings.HasPrefix(nm, "To") || strings.HasPrefix(nm, "Replace") || nm == "Map" || strings.HasPrefix(nm, "Fields") || nm == "Title" {
+					bad = append(bad, f.Pkg().Path()+"."+nm)
+				}
+			}
+			sort.Strings(bad)
+			c.Check(rule, fmt.Sprintf("%s|record-verbatim#%d", fnName(fn), n), len(bad) == 0, st.Pos(), fmt.Sprintf("the record of a diff line is rewritten by %v before it is converted", bad))
+		}
+	}
+	c.Floor(rule, 1)
+}
+
+// c08FreshBatch implements C08.fresh-batch: every ApplyDiff call works on a batch of its own. A batch kept in the
+// updater (round-5 seed c08k) still holds the lines of a diff that failed when the next diff is applied: that diff
+// then "succeeds" with the database equal to neither file.
+func c08FreshBatch(c *Ctx) {
+	rule := "C08.fresh-batch"
+	c.Rule(rule, "A8 in (*RDB).ApplyDiff: the batch handed to ExecuteBatch and to Batch.ApplyDiff is the result of a CreateBatch() call made in the same invocation (never a value loaded from a field or a package-level variable)")
+	fn := c.Func("dnsdata/rdb", "(*RDB).ApplyDiff")
+	c.Examined(fn)
+	exec := c.TypesFunc("dnsdata/rdb", "(*RDB).ExecuteBatch")
+	create := c.TypesFunc("dnsdata/rdb", "(*RDB).CreateBatch")
+	n := 0
+	for _, cl := range withClosures(fn) {
+		for _, ci := range callsTo(cl, func(f *types.Func) bool { return f == exec }) {
+			n++
+			ok := true
+			var kinds []string
+			srcs := sourcesOf(ci.Common().Args[1])
+			for s := range srcs {
+				call, isCall := s.(*ssa.Call)
+				if isCall && calleeOf(call.Common()) == create {
+					continue
+				}
+				ok = false
+				kinds = append(kinds, describeValue(s))
+			}
+			sort.Strings(kinds)
+			c.Check(rule, fmt.Sprintf("%s|executed-batch#%d", fnName(fn), n), ok && len(srcs) > 0, ci.Pos(), fmt.Sprintf("the executed batch is not (only) a batch created by this call: %v", kinds))
+		}
+	}
+	c.Floor(rule, 1)
 }
 
 func runC15(c *Ctx) {
